@@ -1186,7 +1186,7 @@ lys_compile_pattern_chblocks_xmlschema2perl(const struct ly_ctx *ctx, const char
         {NULL, NULL}
     };
 
-    size_t idx, idx2, start, end;
+    size_t idx, idx2, start, end, brack;
     char *perl_regex, *ptr;
 
     perl_regex = *regex;
@@ -1222,15 +1222,15 @@ lys_compile_pattern_chblocks_xmlschema2perl(const struct ly_ctx *ctx, const char
         }
 
         /* make the space in the string and replace the block (but we cannot include brackets if it was already enclosed in them) */
-        for (idx2 = 0, idx = 0; idx2 < start; ++idx2) {
+        for (idx2 = 0, brack = 0; idx2 < start; ++idx2) {
             if ((perl_regex[idx2] == '[') && (!idx2 || (perl_regex[idx2 - 1] != '\\'))) {
-                ++idx;
+                ++brack;
             }
             if ((perl_regex[idx2] == ']') && (!idx2 || (perl_regex[idx2 - 1] != '\\'))) {
-                --idx;
+                --brack;
             }
         }
-        if (idx) {
+        if (brack) {
             /* skip brackets */
             memmove(perl_regex + start + (URANGE_LEN - 2), perl_regex + end, strlen(perl_regex + end) + 1);
             memcpy(perl_regex + start, ublock2urange[idx][1] + 1, URANGE_LEN - 2);
